@@ -87,3 +87,16 @@ impl RngCore for Scripted {
     }
 }
 impl CryptoRng for Scripted {}
+
+/// either a seeded or a scripted generator behind one concrete type
+pub enum AnyRng {
+    Std(StdRng),
+    Script(Scripted),
+}
+impl RngCore for AnyRng {
+    fn next_u32(&mut self) -> u32 { match self { AnyRng::Std(r) => r.next_u32(), AnyRng::Script(r) => r.next_u32() } }
+    fn next_u64(&mut self) -> u64 { match self { AnyRng::Std(r) => r.next_u64(), AnyRng::Script(r) => r.next_u64() } }
+    fn fill_bytes(&mut self, d: &mut [u8]) { match self { AnyRng::Std(r) => r.fill_bytes(d), AnyRng::Script(r) => r.fill_bytes(d) } }
+    fn try_fill_bytes(&mut self, d: &mut [u8]) -> Result<(), rand::Error> { self.fill_bytes(d); Ok(()) }
+}
+impl CryptoRng for AnyRng {}
